@@ -71,13 +71,14 @@ impl HavokValueType {
             || base_type == HavokValueType::VEC16
     }
 
-    pub fn vec_size(self) -> u8 {
+    /// Number of floats of a vector type, `None` for every other type.
+    pub fn vec_size(self) -> Option<u8> {
         match self.base_type() {
-            HavokValueType::VEC4 => 4,
-            HavokValueType::VEC8 => 8,
-            HavokValueType::VEC12 => 12,
-            HavokValueType::VEC16 => 16,
-            _ => panic!(),
+            HavokValueType::VEC4 => Some(4),
+            HavokValueType::VEC8 => Some(8),
+            HavokValueType::VEC12 => Some(12),
+            HavokValueType::VEC16 => Some(16),
+            _ => None,
         }
     }
 }
